@@ -197,6 +197,18 @@ type config_ struct {
 	StartNs int64  `json:"start_offset_ns"` // offset of the first instant inside its window
 	Gap     string `json:"gap"`             // none | some | all : which enqueuers stay in the hand-off gap
 	Via     string `json:"via"`             // queue | plugin
+	// Names (plugin): how the priority groups are called - "" = p0, p1, p2; "free" = header values as free text
+	// (a comma, a space, parameters): a group is the header value that equals its configured name
+	Names string `json:"group_names,omitempty"`
+}
+
+var freeGroupNames = []string{"gold", "eu,us", "team a; q=1, b"}
+
+func groupName(style string, prio int) string {
+	if style == "free" && prio >= 0 && prio < len(freeGroupNames) {
+		return freeGroupNames[prio]
+	}
+	return fmt.Sprintf("p%d", prio)
 }
 
 func newSys(cfg config_) (*sys, error) {
@@ -240,7 +252,7 @@ func newSys(cfg config_) (*sys, error) {
 						TTLSeconds: float32(ttlS), QueueSize: int64(cfg.Size),
 						Prioritization: &sharedConfig.GroupPrioritization{
 							GroupBy: sharedConfig.GroupBy{HeaderName: "x-prio"},
-							Groups:  map[string]sharedConfig.Prioritization{"p0": {Priority: 0}, "p1": {Priority: 1}, "p2": {Priority: 2}},
+							Groups:  map[string]sharedConfig.Prioritization{groupName(cfg.Names, 0): {Priority: 0}, groupName(cfg.Names, 1): {Priority: 1}, groupName(cfg.Names, 2): {Priority: 2}},
 						},
 					},
 				}},
@@ -249,7 +261,7 @@ func newSys(cfg config_) (*sys, error) {
 		s.enq = func(id int, prio int, ttl time.Duration) (bool, string) {
 			req := lunarMessages.OnRequest{
 				ID: fmt.Sprintf("r%d", id), SequenceID: fmt.Sprintf("s%d", id), Method: "GET", Scheme: "https",
-				URL: "h.com/a", Path: "/a", Headers: map[string]string{"host": "h.com", "x-prio": fmt.Sprintf("p%d", prio)},
+				URL: "h.com/a", Path: "/a", Headers: map[string]string{"host": "h.com", "x-prio": groupName(cfg.Names, prio)},
 			}
 			a, err := plugin.OnRequest(req, scoped[int64(ttl/time.Second)])
 			if initErr != nil {
